@@ -84,9 +84,15 @@ def in_cell(kind, x, eps=1e-14):
         return bool(x[0] + x[1] <= 1 + eps and x[2] <= 1 + eps)
 
 
-def rule_config(h, kind, order):
+def rule_config(h, kind, order, before=()):
     from skfem.quadrature import get_quadrature
     refdom = _refdoms()[kind]
+    # history: other orders (of this and of the other reference cells that share generators) requested earlier in the same interpreter
+    for kb, nb in before:
+        try:
+            get_quadrature(_refdoms()[kb], nb)
+        except NotImplementedError:
+            pass
     try:
         # history [request, caller scribbles over what it got, request again]: a rule must not be aliased to earlier results
         X0, W0 = get_quadrature(refdom, order)
@@ -193,6 +199,21 @@ def build_configs(tier, seed):
         for n in r:
             cfgs.append(dict(name='%s/order=%d' % (kind, n), fn=rule_config, kw=dict(kind=kind, order=n),
                              opts=dict(snap=False, no_proxy=True)))
+    # histories: the rule for an order must not depend on which orders were requested before it (neighbouring orders share Gauss rules)
+    hist = dict(line=range(1, 11), quad=range(1, 7), hex=range(1, 5), wedge=range(1, 5), tri=range(1, 9), tet=range(1, 5))
+    for kind, r in hist.items():
+        for n in r:
+            for other in (n - 1, n + 1):
+                if quick and kind in ('hex', 'wedge', 'tet') and other > n:
+                    continue
+                cfgs.append(dict(name='history/%s/order=%d-after-%d' % (kind, n, other), fn=rule_config,
+                                 kw=dict(kind=kind, order=n, before=((kind, other),)), opts=dict(snap=False, no_proxy=True)))
+    cfgs.append(dict(name='history/quad/order=4-after-line-3', fn=rule_config, kw=dict(kind='quad', order=4, before=(('line', 3),)),
+                     opts=dict(snap=False, no_proxy=True)))
+    cfgs.append(dict(name='history/line/order=6-after-ascending', fn=rule_config, kw=dict(kind='line', order=6, before=tuple(('line', k) for k in range(0, 6))),
+                     opts=dict(snap=False, no_proxy=True)))
+    cfgs.append(dict(name='history/line/order=6-after-descending', fn=rule_config, kw=dict(kind='line', order=6, before=tuple(('line', k) for k in range(12, 6, -1))),
+                     opts=dict(snap=False, no_proxy=True)))
     cfgs.append(dict(name='crosshair/order-dispatch', fn=crosshair_config, kw={}, opts=dict(snap=False, no_proxy=True, timeout=600)))
     return cfgs
 
